@@ -27,8 +27,8 @@ Tier == IOEnv.TIER
 
 Ops1 == {"none", "value_inplace", "value_rehash", "tetraplet_fn", "tetraplet_peer_to_m", "arghash",
          "to_failed", "to_stream", "to_sent", "drop_sig", "swap_sig"}
-Ops2 == {"relocate", "copy_over"}
-Bases == {"SM1", "SM2", "SM3", "SM5", "SM6"}
+Ops2 == {"relocate", "copy_over", "forge_pending"}
+Bases == {"SM1", "SM2", "SM3", "SM5", "SM6", "SM7"}
 Pos == 0..7
 Case(b, op, i, j, op2, i2, pv, pt, rs) ==
     [family |-> "attack", base |-> b, op |-> op, i |-> i, j |-> j, op2 |-> op2, i2 |-> i2, j2 |-> 0,
